@@ -1,6 +1,6 @@
 (* Proofs/SerBase.v — shared lemmas for the serialiser proofs: induction principle for call trees, the trace monad,
    byte-table enumeration, itoa, and C13_buf_utf8 / C03_utf8: every buffer handed to write_all is valid UTF-8 on its own. *)
-From SJ Require Import Base.Bytes Base.Utf8 Gen.Tables Model.Read Model.Num Model.Sval Model.Ser Spec.Layout Proofs.SerUtf8.
+From SJ Require Import Base.Bytes Base.Utf8 Gen.Tables Model.Read Model.Num Model.Sval Model.Ser Spec.Syntax Spec.Layout Proofs.SerUtf8.
 From Coq Require Import Lia ZifyBool ZifyN ZifyNat.
 Open Scope N_scope.
 
@@ -99,6 +99,17 @@ Proof.
   - exists []. rewrite app_nil_r. auto.
 Qed.
 
+Lemma tbind_ext {A B} (m : tr A) (k k' : A -> tr B) : (forall a, k a = k' a) -> tbind m k = tbind m k'.
+Proof. intros H. destruct m as [o [a|c i| |]]; cbn [tbind]; try reflexivity. rewrite H. reflexivity. Qed.
+
+Lemma tbind_assoc {A B C} (m : tr A) (k : A -> tr B) (k' : B -> tr C) :
+  tbind (tbind m k) k' = tbind m (fun a => tbind (k a) k').
+Proof.
+  destruct m as [o [a|c i| |]]; cbn [tbind]; try reflexivity.
+  destruct (k a) as [o2 [b|c i| |]]; cbn [tbind]; try reflexivity.
+  destruct (k' b) as [o3 r]. rewrite app_assoc. reflexivity.
+Qed.
+
 (* a property of all buffers of a trace is preserved by bind *)
 Lemma Forall_tbind {A B} (P : bytes -> Prop) (m : tr A) (k : A -> tr B) :
   Forall P (fst m) -> (forall a, Forall P (fst (k a))) -> Forall P (fst (tbind m k)).
@@ -125,13 +136,13 @@ Qed.
 Lemma escape_facts (b : N) : let e := nth (N.to_nat b) ESCAPE_TABLE 0 in
   e <> 0 -> b < 128 /\ exists out, char_escape e b = Some out /\ forallb (fun x => x <? 128) out = true.
 Proof.
-  intros e He. pose proof (escape_nonzero_lt b He) as Hb.
-  assert (H := all_bytes (fun b => let e := nth (N.to_nat b) ESCAPE_TABLE 0 in
-            (e =? 0) || ((b <? 128) && match char_escape e b with Some out => forallb (fun x => x <? 128) out | None => false end))).
-  specialize (H eq_refl b Hb). cbn zeta in H. fold e in H.
+  intros e He. unfold e in *. clear e. pose proof (escape_nonzero_lt b He) as Hb.
+  assert (H := all_bytes (fun b => (nth (N.to_nat b) ESCAPE_TABLE 0 =? 0) || ((b <? 128) &&
+            match char_escape (nth (N.to_nat b) ESCAPE_TABLE 0) b with Some out => forallb (fun x => x <? 128) out | None => false end))).
+  specialize (H eq_refl b Hb). cbn beta in H.
   apply orb_true_iff in H as [H|H]; [apply N.eqb_eq in H; contradiction|].
   apply andb_true_iff in H as [H1 H2]. split; [lia|].
-  destruct (char_escape e b) as [out|]; [|discriminate]. exists out. auto.
+  destruct (char_escape (nth (N.to_nat b) ESCAPE_TABLE 0) b) as [out|]; [|discriminate H2]. exists out. auto.
 Qed.
 
 (* ---- itoa -------------------------------------------------------------------------------------- *)
@@ -210,17 +221,322 @@ Proof.
   apply Forall_tbind; [apply U_collect_chunks, H|]. intros _. apply U_twrite. reflexivity.
 Qed.
 
-Lemma utf8_encode_valid c : is_scalar c = true -> utf8_valid (utf8_encode c) = true.
+(* ---- number texts ------------------------------------------------------------------------------ *)
+Lemma take_digits_app l : fst (take_digits l) ++ snd (take_digits l) = l.
+Proof. unfold take_digits. cbn [fst snd]. apply firstn_skipn. Qed.
+
+Lemma numlit_of_text_render t n : numlit_of_text t = Some n -> render_num n = t.
 Proof.
-  unfold is_scalar, utf8_encode. intros H.
-  destruct (c <? 128) eqn:E1; [cbn [utf8_valid]; rewrite E1; reflexivity|].
-  destruct (c <? 2048) eqn:E2.
-  { assert (Hs : N.shiftr c 6 < 32) by (rewrite N.shiftr_div_pow2; apply N.div_lt_upper_bound; cbn; lia).
-    assert (Hs2 : 2 <= N.shiftr c 6) by (rewrite N.shiftr_div_pow2; apply N.div_le_lower_bound; cbn; lia).
-    assert (Hl : N.land c 63 < 64) by (change 63 with (N.ones 6); rewrite N.land_ones; apply N.mod_upper_bound; cbn; lia).
-    assert (E192 : N.lor (N.shiftr c 6) 192 = N.shiftr c 6 + 192).
-    { rewrite N.lor_comm. change 192 with (3 * 2 ^ 6). rewrite <- N.shiftl_mul_pow2.
-      rewrite N.add_comm. symmetry. rewrite <- N.shiftl_mul_pow2. admit. }
-    admit. }
-  admit.
-Admitted.
+  unfold numlit_of_text.
+  set (p1 := match t with 45 :: r => (true, r) | _ => (false, t) end).
+  assert (E1 : (if fst p1 then [45] else []) ++ snd p1 = t).
+  { subst p1. destruct t as [|c r]; [reflexivity|]. destruct (N.eq_dec c 45) as [->|Hne]; [reflexivity|].
+    destruct c as [|p]; [reflexivity|]. do 6 (destruct p as [p|p|]; try reflexivity). all: try (exfalso; apply Hne; reflexivity). }
+  destruct p1 as [neg t1]. cbn [fst snd] in E1.
+  pose proof (take_digits_app t1) as E2. destruct (take_digits t1) as [ip t2]. cbn [fst snd] in E2.
+  set (p3 := match t2 with 46 :: r => let '(f, r') := take_digits r in (Some f, r') | _ => (None, t2) end).
+  assert (E3 : (match fst p3 with Some f => 46 :: f | None => [] end) ++ snd p3 = t2).
+  { subst p3. destruct t2 as [|c r]; [reflexivity|]. destruct (N.eq_dec c 46) as [->|Hne].
+    - pose proof (take_digits_app r) as E. destruct (take_digits r) as [f r']. cbn [fst snd] in *. rewrite <- E. reflexivity.
+    - destruct c as [|p]; [reflexivity|]. do 6 (destruct p as [p|p|]; try reflexivity). all: try (exfalso; apply Hne; reflexivity). }
+  destruct p3 as [fr t3]. cbn [fst snd] in E3.
+  set (p4 := match t3 with
+             | e :: r => if (e =? 101) || (e =? 69) then
+                 let '(sg, r1) := match r with 43 :: r' => (Some 43, r') | 45 :: r' => (Some 45, r') | _ => (None, r) end in
+                 let '(ds, r2) := take_digits r1 in (Some (e, sg, ds), r2) else (None, t3)
+             | [] => (None, t3) end).
+  assert (E4 : (match fst p4 with Some (e, sg, ds) => e :: (match sg with Some c => [c] | None => [] end) ++ ds | None => [] end) ++ snd p4 = t3).
+  { subst p4. destruct t3 as [|e r]; [reflexivity|]. destruct ((e =? 101) || (e =? 69)); [|reflexivity].
+    set (q := match r with 43 :: r' => (Some 43, r') | 45 :: r' => (Some 45, r') | _ => (None, r) end).
+    assert (Eq : (match fst q with Some c => [c] | None => [] end) ++ snd q = r).
+    { subst q. destruct r as [|c r']; [reflexivity|].
+      destruct (N.eq_dec c 43) as [->|H43]; [reflexivity|]. destruct (N.eq_dec c 45) as [->|H45]; [reflexivity|].
+      destruct c as [|p]; [reflexivity|]. do 6 (destruct p as [p|p|]; try reflexivity).
+      all: try (exfalso; apply H43; reflexivity). all: try (exfalso; apply H45; reflexivity). }
+    destruct q as [sg r1]. cbn [fst snd] in Eq.
+    pose proof (take_digits_app r1) as E. destruct (take_digits r1) as [ds r2]. cbn [fst snd] in *.
+    rewrite <- Eq, <- E. rewrite <- ?app_assoc. destruct sg; reflexivity. }
+  destruct p4 as [ex t4]. cbn [fst snd] in E4.
+  destruct t4; [|discriminate]. intros H. inversion H. subst n. clear H.
+  unfold render_num. cbn [nneg nint nfrac nexp].
+  rewrite <- E1, <- E2, <- E3, <- E4. rewrite app_nil_r.
+  destruct ex as [[[e sg] ds]|]; rewrite ?app_nil_r; reflexivity.
+Qed.
+
+Lemma forallb_app' {A} (p : A -> bool) (a b : list A) : forallb p a = true -> forallb p b = true -> forallb p (a ++ b) = true.
+Proof. intros Ha Hb. rewrite forallb_app, Ha, Hb. reflexivity. Qed.
+
+Definition asciib (l : bytes) : bool := forallb (fun b => b <? 128) l.
+
+Lemma digits_ascii l : forallb is_digit l = true -> asciib l = true.
+Proof. apply forallb_impl. intros x. unfold is_digit. lia. Qed.
+
+Lemma int_ok_digits l : int_ok l = true -> forallb is_digit l = true.
+Proof.
+  unfold int_ok. destruct l as [|d r]; [discriminate|]. intros H.
+  assert (H' : (d = 48 /\ r = []) \/ (is_digit19 d && forallb is_digit r = true)).
+  { destruct (N.eq_dec d 48) as [->|Hne].
+    - destruct r; [left; auto | right; exact H].
+    - right. destruct d as [|p]; [exact H|]. do 6 (destruct p as [p|p|]; try exact H). exfalso. apply Hne. reflexivity. }
+  destruct H' as [[-> ->]|H']; [reflexivity|].
+  apply andb_true_iff in H' as [H1 H2]. cbn [forallb]. rewrite H2. unfold is_digit19 in H1. unfold is_digit. lia.
+Qed.
+
+Lemma digits_ok_digits l : digits_ok l = true -> forallb is_digit l = true.
+Proof. unfold digits_ok. destruct l; [discriminate | auto]. Qed.
+
+Lemma num_ok_ascii n : num_ok n = true -> asciib (render_num n) = true.
+Proof.
+  unfold num_ok, render_num. intros H. apply andb_true_iff in H as [H H3]. apply andb_true_iff in H as [H1 H2].
+  unfold asciib. apply forallb_app'; [destruct (nneg n); reflexivity|].
+  apply forallb_app'; [apply digits_ascii, int_ok_digits, H1|].
+  apply forallb_app'.
+  - destruct (nfrac n) as [f|]; [|reflexivity]. cbn [forallb]. fold (asciib f). rewrite (digits_ascii _ (digits_ok_digits _ H2)). reflexivity.
+  - destruct (nexp n) as [[[e sg] ds]|]; [|reflexivity].
+    apply andb_true_iff in H3 as [H3 H5]. apply andb_true_iff in H3 as [H3 H4].
+    cbn [forallb]. apply andb_true_iff. split; [lia|].
+    apply forallb_app'; [destruct sg as [c|]; [cbn [forallb]; lia | reflexivity]|].
+    apply digits_ascii, digits_ok_digits, H5.
+Qed.
+
+Lemma number_text_ascii t : number_text_ok t = true -> asciib t = true.
+Proof.
+  unfold number_text_ok. destruct (numlit_of_text t) as [n|] eqn:E; [|discriminate]. intros H.
+  rewrite <- (numlit_of_text_render t n E). apply num_ok_ascii, H.
+Qed.
+
+(* ---- C13_buf_utf8 for an arbitrary call tree, either formatter ------------------------------------ *)
+Section BufUtf8.
+  Variable cf : cfg.
+  Variable fmt32 fmt64 : N -> bytes.
+  Variable F : formatter.
+  Hypothesis Hind : forall ind, F = Pretty ind -> utf8_valid ind = true.
+  Hypothesis H32 : forall b, f32_finite_bits b = true -> utf8_valid (fmt32 b) = true.
+  Hypothesis H64 : forall b, f64_finite_bits b = true -> utf8_valid (fmt64 b) = true.
+
+  Lemma U_lift {S} (p : list bytes * S) : U (fst p) -> U (fst (lift p)).
+  Proof. auto. Qed.
+
+  Lemma U_indent n ind : F = Pretty ind -> U (indent_bufs n ind).
+  Proof. intros H. apply U_repeat, (Hind _ H). Qed.
+
+  Lemma U_begin_array st : U (fst (begin_array F st)).
+  Proof. unfold begin_array. destruct F; apply U_one; reflexivity. Qed.
+  Lemma U_end_array st : U (fst (end_array F st)).
+  Proof.
+    unfold end_array. destruct F as [|ind] eqn:EF; [apply U_one; reflexivity|]. cbn [fst].
+    apply U_app; [|apply U_one; reflexivity]. destruct (hasv st); [|constructor].
+    constructor; [reflexivity | apply U_repeat, (Hind ind eq_refl)].
+  Qed.
+  Lemma U_begin_array_value first st : U (fst (begin_array_value F first st)).
+  Proof.
+    unfold begin_array_value. destruct F as [|ind] eqn:EF; cbn [fst].
+    - destruct first; [constructor | apply U_one; reflexivity].
+    - constructor; [destruct first; reflexivity | apply U_repeat, (Hind ind eq_refl)].
+  Qed.
+  Lemma U_end_array_value st : U (fst (end_array_value F st)).
+  Proof. unfold end_array_value. destruct F; constructor. Qed.
+  Lemma U_begin_object st : U (fst (begin_object F st)).
+  Proof. unfold begin_object. destruct F; apply U_one; reflexivity. Qed.
+  Lemma U_end_object st : U (fst (end_object F st)).
+  Proof.
+    unfold end_object. destruct F as [|ind] eqn:EF; [apply U_one; reflexivity|]. cbn [fst].
+    apply U_app; [|apply U_one; reflexivity]. destruct (hasv st); [|constructor].
+    constructor; [reflexivity | apply U_repeat, (Hind ind eq_refl)].
+  Qed.
+  Lemma U_begin_object_key first st : U (fst (begin_object_key F first st)).
+  Proof. exact (U_begin_array_value first st). Qed.
+  Lemma U_end_object_key st : U (fst (end_object_key F st)).
+  Proof. constructor. Qed.
+  Lemma U_begin_object_value st : U (fst (begin_object_value F st)).
+  Proof. unfold begin_object_value. destruct F; apply U_one; reflexivity. Qed.
+  Lemma U_end_object_value st : U (fst (end_object_value F st)).
+  Proof. unfold end_object_value. destruct F; constructor. Qed.
+
+  Lemma U_write_int z : U (fst (write_int z)).
+  Proof. apply U_twrite, forallb_ascii_utf8, itoa_z_ascii. Qed.
+  Lemma U_write_bool b : U (fst (write_bool b)).
+  Proof. apply U_twrite. destruct b; reflexivity. Qed.
+  Lemma U_write_null : U (fst write_null).
+  Proof. apply U_twrite. reflexivity. Qed.
+  Lemma U_tret {A} (a : A) : U (fst (tret a)).
+  Proof. constructor. Qed.
+  Lemma U_tfail {A} c : U (fst (@tfail A c)).
+  Proof. constructor. Qed.
+
+  Lemma U_quoted m : U (fst m) -> U (fst (quoted m)).
+  Proof.
+    intros H. unfold quoted. apply Forall_tbind; [apply U_twrite; reflexivity|]. intros _.
+    apply Forall_tbind; [exact H|]. intros _. apply U_twrite. reflexivity.
+  Qed.
+
+  Lemma U_byte_array_loop l : forall first st, U (fst (byte_array_loop F l first st)).
+  Proof.
+    induction l as [|b r IH]; intros first st; cbn [byte_array_loop]; [apply U_tret|].
+    apply Forall_tbind; [apply U_lift, U_begin_array_value|]. intros st1.
+    apply Forall_tbind; [apply U_write_int|]. intros _.
+    apply Forall_tbind; [apply U_lift, U_end_array_value|]. intros st2. apply IH.
+  Qed.
+
+  Lemma U_write_byte_array l st : U (fst (write_byte_array F l st)).
+  Proof.
+    unfold write_byte_array. apply Forall_tbind; [apply U_lift, U_begin_array|]. intros st1.
+    apply Forall_tbind; [apply U_byte_array_loop|]. intros st2. apply U_lift, U_end_array.
+  Qed.
+
+  Lemma U_open_seq h st : U (fst (open_seq F h st)).
+  Proof.
+    unfold open_seq. apply Forall_tbind; [apply U_lift, U_begin_array|]. intros st1.
+    destruct (is_some0 h); [|apply U_tret]. apply Forall_tbind; [apply U_lift, U_end_array|]. intros; apply U_tret.
+  Qed.
+  Lemma U_open_map h st : U (fst (open_map F h st)).
+  Proof.
+    unfold open_map. apply Forall_tbind; [apply U_lift, U_begin_object|]. intros st1.
+    destruct (is_some0 h); [|apply U_tret]. apply Forall_tbind; [apply U_lift, U_end_object|]. intros; apply U_tret.
+  Qed.
+  Lemma U_close_seq cs st : U (fst (close_seq F cs st)).
+  Proof. unfold close_seq. destruct cs; [apply U_tret | apply U_lift, U_end_array | apply U_lift, U_end_array]. Qed.
+  Lemma U_close_map cs st : U (fst (close_map F cs st)).
+  Proof. unfold close_map. destruct cs; [apply U_tret | apply U_lift, U_end_object | apply U_lift, U_end_object]. Qed.
+  Lemma U_open_variant name st : utf8_valid name = true -> U (fst (open_variant F name st)).
+  Proof.
+    intros H. unfold open_variant. apply Forall_tbind; [apply U_lift, U_begin_object|]. intros st1.
+    apply Forall_tbind; [apply U_lift, U_begin_object_key|]. intros st2.
+    apply Forall_tbind; [apply U_str, H|]. intros _.
+    apply Forall_tbind; [apply U_lift, U_end_object_key|]. intros st3. apply U_lift, U_begin_object_value.
+  Qed.
+  Lemma U_close_variant st : U (fst (close_variant F st)).
+  Proof.
+    unfold close_variant. apply Forall_tbind; [apply U_lift, U_end_object_value|]. intros st1. apply U_lift, U_end_object.
+  Qed.
+
+  Lemma U_ser_elems (ser : sval -> fstate -> tr fstate) es :
+    Forall (fun e => forall st, U (fst (ser e st))) es -> forall cs st, U (fst (ser_elems F ser es cs st)).
+  Proof.
+    induction 1 as [|e r He _ IH]; intros cs st; cbn [ser_elems]; [apply U_tret|].
+    apply Forall_tbind; [apply U_lift, U_begin_array_value|]. intros st1.
+    apply Forall_tbind; [apply He|]. intros st2.
+    apply Forall_tbind; [apply U_lift, U_end_array_value|]. intros st3. apply IH.
+  Qed.
+
+  Lemma U_ser_entries {K} (ser : sval -> fstate -> tr fstate) (serkey : K -> tr unit) (l : list (K * sval)) :
+    Forall (fun kv => U (fst (serkey (fst kv))) /\ forall st, U (fst (ser (snd kv) st))) l ->
+    forall cs st, U (fst (ser_entries F ser serkey l cs st)).
+  Proof.
+    induction 1 as [|[k v] r [Hk Hv] _ IH]; intros cs st; cbn [ser_entries]; [apply U_tret|]. cbn [fst snd] in *.
+    apply Forall_tbind; [apply U_lift, U_begin_object_key|]. intros st1.
+    apply Forall_tbind; [exact Hk|]. intros _.
+    apply Forall_tbind; [apply U_lift, U_end_object_key|]. intros st2.
+    apply Forall_tbind; [apply U_lift, U_begin_object_value|]. intros st3.
+    apply Forall_tbind; [apply Hv|]. intros st4.
+    apply Forall_tbind; [apply U_lift, U_end_object_value|]. intros st5. apply IH.
+  Qed.
+
+  Lemma forallb_Forall {A} (p : A -> bool) (l : list A) : forallb p l = true -> Forall (fun x => p x = true) l.
+  Proof. intros H. apply Forall_forall. apply forallb_forall. exact H. Qed.
+
+  Lemma U_key_ser : forall k, wfs k = true -> U (fst (key_ser fmt32 fmt64 k)).
+  Proof.
+    induction k using sval_ind'; intros W; cbn [key_ser]; cbn [wfs] in W; try apply U_tfail.
+    - apply U_quoted, U_write_bool.
+    - apply U_quoted, U_write_int.
+    - destruct (f32_finite_bits b) eqn:E; [|apply U_tfail]. apply U_quoted, U_twrite, H32, E.
+    - destruct (f64_finite_bits b) eqn:E; [|apply U_tfail]. apply U_quoted, U_twrite, H64, E.
+    - apply U_str, utf8_encode_valid, W.
+    - apply U_str, W.
+    - apply IHk, W.
+    - apply U_str, W.
+    - apply IHk, W.
+    - apply U_collect, W.
+  Qed.
+
+  Theorem ser_bufs_utf8 : forall v, wfs v = true -> forall st, U (fst (ser cf fmt32 fmt64 F v st)).
+  Proof.
+    induction v using sval_ind'; intros W st; cbn [ser]; cbn [wfs] in W.
+    - apply Forall_tbind; [apply U_write_bool | intros; apply U_tret].
+    - apply Forall_tbind; [apply U_write_int | intros; apply U_tret].
+    - apply Forall_tbind; [|intros; apply U_tret].
+      destruct (f32_finite_bits b) eqn:E; [apply U_twrite, H32, E | apply U_write_null].
+    - apply Forall_tbind; [|intros; apply U_tret].
+      destruct (f64_finite_bits b) eqn:E; [apply U_twrite, H64, E | apply U_write_null].
+    - apply Forall_tbind; [apply U_str, utf8_encode_valid, W | intros; apply U_tret].
+    - apply Forall_tbind; [apply U_str, W | intros; apply U_tret].
+    - apply U_write_byte_array.
+    - apply Forall_tbind; [apply U_write_null | intros; apply U_tret].
+    - apply IHv, W.
+    - apply Forall_tbind; [apply U_write_null | intros; apply U_tret].
+    - apply Forall_tbind; [apply U_write_null | intros; apply U_tret].
+    - apply Forall_tbind; [apply U_str, W | intros; apply U_tret].
+    - apply IHv, W.
+    - apply andb_true_iff in W as [W1 W2].
+      apply Forall_tbind; [apply U_open_variant, W1|]. intros st1.
+      apply Forall_tbind; [apply IHv, W2|]. intros st2. apply U_close_variant.
+    - apply andb_true_iff in W as [_ W2].
+      apply Forall_tbind; [apply U_open_seq|]. intros [cs st1].
+      apply Forall_tbind; [|intros [cs2 st2]; apply U_close_seq].
+      apply U_ser_elems. apply forallb_Forall in W2. rewrite Forall_forall in *. intros e He st'. apply (H e He), (W2 e He).
+    - apply Forall_tbind; [apply U_open_seq|]. intros [cs st1].
+      apply Forall_tbind; [|intros [cs2 st2]; apply U_close_seq].
+      apply U_ser_elems. apply forallb_Forall in W. rewrite Forall_forall in *. intros e He st'. apply (H e He), (W e He).
+    - apply Forall_tbind; [apply U_open_seq|]. intros [cs st1].
+      apply Forall_tbind; [|intros [cs2 st2]; apply U_close_seq].
+      apply U_ser_elems. apply forallb_Forall in W. rewrite Forall_forall in *. intros e He st'. apply (H e He), (W e He).
+    - apply andb_true_iff in W as [W1 W2].
+      apply Forall_tbind; [apply U_open_variant, W1|]. intros st0.
+      apply Forall_tbind; [apply U_open_seq|]. intros [cs st1].
+      apply Forall_tbind; [|intros [cs2 st2]; apply Forall_tbind; [apply U_close_seq | intros; apply U_close_variant]].
+      apply U_ser_elems. apply forallb_Forall in W2. rewrite Forall_forall in *. intros e He st'. apply (H e He), (W2 e He).
+    - apply andb_true_iff in W as [_ W2].
+      apply Forall_tbind; [apply U_open_map|]. intros [cs st1].
+      apply Forall_tbind; [|intros [cs2 st2]; apply U_close_map].
+      apply U_ser_entries. apply forallb_Forall in W2. rewrite Forall_forall in *. intros kv Hkv.
+      specialize (H kv Hkv). specialize (W2 kv Hkv). cbn beta in W2. apply andb_true_iff in W2 as [Wk Wv].
+      split; [apply U_key_ser, Wk | intros st'; apply (proj2 H), Wv].
+    - apply Forall_tbind; [apply U_open_map|]. intros [cs st1].
+      apply Forall_tbind; [|intros [cs2 st2]; apply U_close_map].
+      apply U_ser_entries. apply forallb_Forall in W. rewrite Forall_forall in *. intros kv Hkv.
+      specialize (H kv Hkv). specialize (W kv Hkv). cbn beta in W. apply andb_true_iff in W as [Wk Wv].
+      split; [apply U_str, Wk | intros st'; apply H, Wv].
+    - apply andb_true_iff in W as [W1 W2].
+      apply Forall_tbind; [apply U_open_variant, W1|]. intros st0.
+      apply Forall_tbind; [apply U_open_map|]. intros [cs st1].
+      apply Forall_tbind; [|intros [cs2 st2]; apply Forall_tbind; [apply U_close_map | intros; apply U_close_variant]].
+      apply U_ser_entries. apply forallb_Forall in W2. rewrite Forall_forall in *. intros kv Hkv.
+      specialize (H kv Hkv). specialize (W2 kv Hkv). cbn beta in W2. apply andb_true_iff in W2 as [Wk Wv].
+      split; [apply U_str, Wk | intros st'; apply H, Wv].
+    - apply Forall_tbind; [apply U_collect, W | intros; apply U_tret].
+    - pose proof (forallb_ascii_utf8 _ (number_text_ascii _ W)) as Hl.
+      destruct (arbitrary_precision cf).
+      + apply Forall_tbind; [apply U_twrite, Hl | intros; apply U_tret].
+      + apply Forall_tbind; [apply U_open_map|]. intros [cs st1].
+        apply Forall_tbind; [apply U_lift, U_begin_object_key|]. intros st2.
+        apply Forall_tbind; [apply U_str; reflexivity|]. intros _.
+        apply Forall_tbind; [apply U_lift, U_end_object_key|]. intros st3.
+        apply Forall_tbind; [apply U_lift, U_begin_object_value|]. intros st4.
+        apply Forall_tbind; [apply U_str, Hl|]. intros _.
+        apply Forall_tbind; [apply U_lift, U_end_object_value|]. intros st5. apply U_close_map.
+  Qed.
+
+  (* the trace of a whole run, whatever its outcome *)
+  Theorem trace_bufs_utf8 : forall v, wfs v = true -> U (fst (serialize_trace cf fmt32 fmt64 F v)).
+  Proof.
+    intros v W. unfold serialize_trace. apply Forall_tbind; [apply ser_bufs_utf8, W | intros; apply U_tret].
+  Qed.
+
+  Lemma serialize_trace_ok v bufs : serialize cf fmt32 fmt64 F v = Ok bufs ->
+    fst (serialize_trace cf fmt32 fmt64 F v) = bufs.
+  Proof.
+    unfold serialize. destruct (serialize_trace cf fmt32 fmt64 F v) as [o [a|c i| |]]; intros H; inversion H. reflexivity.
+  Qed.
+
+  Theorem C13_buf_utf8_main : forall v bufs, wfs v = true -> serialize cf fmt32 fmt64 F v = Ok bufs ->
+    Forall (fun b => utf8_valid b = true) bufs.
+  Proof. intros v bufs W H. rewrite <- (serialize_trace_ok v bufs H). apply trace_bufs_utf8, W. Qed.
+
+  Theorem C03_utf8_main : forall v bufs, wfs v = true -> serialize cf fmt32 fmt64 F v = Ok bufs ->
+    utf8_valid (concat bufs) = true.
+  Proof. intros v bufs W H. apply utf8_valid_concat. exact (C13_buf_utf8_main v bufs W H). Qed.
+End BufUtf8.
+
+Print Assumptions C13_buf_utf8_main.
+Print Assumptions C03_utf8_main.
